@@ -426,23 +426,27 @@ Definition q_ok (q : question) : Prop := bytes_ok (q_name q) = true.
 Fixpoint qs_size (qs : list question) : nat :=
   match qs with [] => O | q :: t => (length (q_name q) + 4 + qs_size t)%nat end.
 
-Lemma take_name_ok : forall d acc name r,
-  take_name d acc = Some (name, r) ->
+Lemma take_qname_ok : forall d acc left name r,
+  take_qname d acc left = Some (name, r) ->
   (bytes_ok d = true -> bytes_ok acc = true -> bytes_ok name = true /\ bytes_ok r = true) /\
   (length name + length r = length d + length acc)%nat /\ (1 <= length name)%nat.
 Proof.
-  induction d as [|b t IH]; intros acc name r H; cbn [take_name] in H; [discriminate|].
-  destruct (b =? 0).
-  - inversion H; subst. clear H. change (rev acc ++ [b]) with (rev (b :: acc)). split; [|split].
-    + intros Hd Ha. rewrite bytes_ok_cons in Hd. apply andb_true_iff in Hd. destruct Hd as [Hb Ht].
-      split; [|exact Ht]. apply bytes_ok_rev. rewrite bytes_ok_cons, Hb, Ha. reflexivity.
-    + rewrite rev_length. cbn [length]. lia.
-    + rewrite rev_length. cbn [length]. lia.
-  - destruct (IH _ _ _ H) as (H1 & H2 & H3). split; [|split].
+  induction d as [|b t IH]; intros acc left name r H; cbn [take_qname] in H; [discriminate|].
+  assert (Hstep : forall l', take_qname t (b :: acc) l' = Some (name, r) ->
+    (bytes_ok (b :: t) = true -> bytes_ok acc = true -> bytes_ok name = true /\ bytes_ok r = true) /\
+    (length name + length r = length (b :: t) + length acc)%nat /\ (1 <= length name)%nat).
+  { intros l' H'. destruct (IH _ _ _ _ H') as (H1 & H2 & H3). split; [|split].
     + intros Hd Ha. rewrite bytes_ok_cons in Hd. apply andb_true_iff in Hd. destruct Hd as [Hb Ht].
       apply H1; [exact Ht|]. rewrite bytes_ok_cons, Hb, Ha. reflexivity.
     + cbn [length] in *. lia.
-    + exact H3.
+    + exact H3. }
+  destruct (0 <? left); [exact (Hstep _ H)|].
+  destruct (b =? 0); [|exact (Hstep _ H)].
+  inversion H; subst. clear H. change (rev acc ++ [b]) with (rev (b :: acc)). split; [|split].
+  + intros Hd Ha. rewrite bytes_ok_cons in Hd. apply andb_true_iff in Hd. destruct Hd as [Hb Ht].
+    split; [|exact Ht]. apply bytes_ok_rev. rewrite bytes_ok_cons, Hb, Ha. reflexivity.
+  + rewrite rev_length. cbn [length]. lia.
+  + rewrite rev_length. cbn [length]. lia.
 Qed.
 
 Lemma take_question_ok d q r :
@@ -450,8 +454,8 @@ Lemma take_question_ok d q r :
   (bytes_ok d = true -> q_ok q /\ bytes_ok r = true) /\
   (length (q_name q) + 4 + length r = length d)%nat /\ (1 <= length (q_name q))%nat.
 Proof.
-  unfold take_question. destruct (take_name d []) as [[name r0]|] eqn:Hn; [|discriminate].
-  destruct (take_name_ok _ _ _ _ Hn) as (H1 & H2 & H3).
+  unfold take_question. destruct (take_qname d [] 0) as [[name r0]|] eqn:Hn; [|discriminate].
+  destruct (take_qname_ok _ _ _ _ _ Hn) as (H1 & H2 & H3).
   destruct r0 as [|t1 [|t2 [|c1 [|c2 rest]]]]; try discriminate.
   intros H. inversion H; subst. clear H. cbn [q_name]. split; [|split].
   - intros Hd. destruct (H1 Hd eq_refl) as [Hname Hr]. split; [exact Hname|].
